@@ -136,9 +136,12 @@ func (self Loader) LoadMany(items []LoadOneItem) (out []Function) {
 // and returns runnable function pointer
 // WARN: this API is experimental, use it carefully
 func Load(text []byte, funcs []Func, modulename string, filenames []string) (out []Function) {
-	ids := make([]string, len(funcs))
+	// makeModuledata sorts funcs: remember which entry belongs to which input.
+	// (Names cannot identify them: distinct functions may carry the same name,
+	// e.g. codecs of same-named types from different packages.)
+	entries := make([]uint32, len(funcs))
 	for i, f := range funcs {
-		ids[i] = f.Name
+		entries[i] = f.EntryOff
 	}
 	// generate module data and allocate memory address
 	mod := makeModuledata(modulename, filenames, &funcs, text)
@@ -149,14 +152,10 @@ func Load(text []byte, funcs []Func, modulename string, filenames []string) (out
 
 	//
 	// encapsulate function address
-	out = make([]Function, len(funcs))
-	for i, s := range ids {
-		for _, f := range funcs {
-			if f.Name == s {
-				m := uintptr(mod.text + uintptr(f.EntryOff))
-				out[i] = Function(&m)
-			}
-		}
+	out = make([]Function, len(entries))
+	for i, off := range entries {
+		m := uintptr(mod.text + uintptr(off))
+		out[i] = Function(&m)
 	}
 	return
 }
